@@ -102,6 +102,15 @@ def cases(tier, seed):
                           "hydrogens": ["none", "none", "some"], "variant_prob": 0.05,
                           "pool": ["ARG", "LYS", "GLU", "GLN", "MET", "ILE", "LEU", "TRP", "PHE", "TYR", "HIS", "ASN",
                                    "ASP", "THR", "VAL", "SER", "PRO", "PRO"]}})
+        if i % 6 == 2:
+            # long / ring side chains at the chain ends (terminal torsions and caps meet deep side-chain torsions)
+            out[-1]["p"]["nterm_pool"] = ["ARG", "TRP", "ARG", "TRP", "LYS", "MET", "GLN"]
+            out[-1]["p"]["cterm_pool"] = ["ARG", "TRP", "PRO", "LYS", "MET", "GLN", "GLU", "HIS", "TYR"]
+        elif i % 6 == 5:
+            # an imino N-terminus (one amine hydrogen less, ring closed onto N) with an obstacle at its hydrogen
+            out[-1]["p"]["nterm_pool"] = ["PRO", "PRO", "PRO", "GLU", "HIS"]
+            out[-1]["p"]["cterm_pool"] = ["PRO", "ARG", "TRP", "LYS", "GLN"]
+            out[-1]["p"]["carbon_obstacle_prob"] = 1.0
     return out
 
 
